@@ -14,7 +14,7 @@ import gengrid
 import zinccodec
 
 FIELDS = ['num', 'esc', 'frac', 'dt', 'coord', 'sep', 'nl', 'mark', 'list', 'empty', 'gap', 'fin']
-RANGES = {'num': 4, 'esc': 3, 'frac': 3, 'dt': 5, 'coord': 3, 'sep': 3, 'nl': 2, 'mark': 2, 'list': 4,
+RANGES = {'num': 5, 'esc': 3, 'frac': 3, 'dt': 5, 'coord': 3, 'sep': 3, 'nl': 2, 'mark': 2, 'list': 4,
           'empty': 2, 'gap': 3, 'fin': 2}
 
 
@@ -121,7 +121,9 @@ def run(tier):
             raise MachineryError('only %d generated cases for %d documents' % (len(cases), len(docs)))
         # input variants
         jobs, info = [], {}
-        charsets = ['utf-8', 'utf-16', 'latin-1']
+        # "any charset": byte order marks or none, one / two / four bytes per code unit, either byte order, legacy code pages
+        charsets = ['utf-8', 'utf-16', 'latin-1', 'utf-16-be', 'utf-16-le', 'utf-32', 'utf-32-be', 'utf-32-le', 'utf-8-sig',
+                    'cp1252', 'ascii', 'utf-7']
         for d in cases:
             text = d['text']
             variants = [{}]
